@@ -406,11 +406,19 @@ def heap1(cfg):
                     o, neg = f.strip_test(blk['cond'])
                     c = f.resolve(o)
                     val = None
-                    if isinstance(c, dict) and c.get('k') == 'binop' and c.get('op') in ('==', '!='):
+                    if isinstance(c, dict) and c.get('k') == 'binop' and c.get('op') in ('==', '!=', '<', '<=', '>', '>='):
                         l, r = f.strip_casts(c['l']), f.strip_casts(c['r'])
-                        for x, y in ((l, r), (r, l)):
+                        for x, y, flip in ((l, r, False), (r, l, True)):
                             if isinstance(y, dict) and y.get('k') == 'int' and y.get('v') == '0' and ((isinstance(x, dict) and x.get('k') == 'ref' and errvar is not None and x.get('did') == errvar) or x is ce):
-                                val = (case == 'ok') == (c['op'] == '==')
+                                # POSIX: posix_memalign returns 0 on success and a POSITIVE error number on failure
+                                op_ = c['op']
+                                if flip:
+                                    op_ = {'<': '>', '<=': '>=', '>': '<', '>=': '<='}.get(op_, op_)
+                                errv = 0 if case == 'ok' else 1
+                                val = {'==': errv == 0, '!=': errv != 0, '<': errv < 0, '<=': errv <= 0, '>': errv > 0, '>=': errv >= 0}[op_]
+                        if c.get('op') not in ('==', '!='):
+                            l = r = None
+                        for x, y in ((l, r), (r, l)):
                             if isinstance(x, dict) and x.get('k') == 'ref' and x.get('did') == pvar and isinstance(y, dict) and y.get('k') == 'nullptr':
                                 if ptr == 'null':
                                     val = c['op'] == '=='
@@ -419,6 +427,12 @@ def heap1(cfg):
                                 else:
                                     val = 'both'
                     if val is None:
+                        nr_ = f._noreturn_blocks()
+                        live_ = [s_ for s_ in ss if s_ is not None and s_ not in nr_]
+                        if len(live_) == 1 and any(s_ in nr_ for s_ in ss if s_ is not None) and not any(el_.get('k') == 'throw' for s_ in ss if s_ is not None for el_ in f.blocks[s_]['elems']):
+                            # an assertion (its failing side ends in the noreturn failure handler): assumed to hold
+                            work.append((live_[0], 0, ptr))
+                            continue
                         unknown.append(fileline(blk.get('termloc') or f.loc))
                         val = 'both'
                     if val == 'both':
